@@ -56,7 +56,7 @@ VEst(r) ==
   ELSE IF \E i \in 1..n : r.calls[i].exc THEN "failed-call-ignored"
   ELSE IF f.z < 0 \/ f.a < 0 THEN "negative-wires"
   ELSE IF f.z # rp.s.z \/ f.a # rp.s.a THEN "allocation-not-accounted"           \* reported wires = replay of every call
-  ELSE IF f.total # f.z + f.a + f.algo \/ f.total < f.algo THEN "total-wires"
+  ELSE IF f.total # f.z + f.a + f.algo \/ f.total < f.algo \/ f.algo # rp.s.algo THEN "total-wires"
   ELSE IF r.lb >= 0 /\ f.algo < r.lb THEN "algo-wires-below-workflow"
   ELSE "ok"
 DEst(r) == IF r.fin.ok /\ r.algoexp >= 0 /\ r.fin.algo # r.algoexp THEN "algo-formula" ELSE "none"
